@@ -142,6 +142,10 @@ class C03(Prop):
                % (cls, n, d.get('cbs'), py.get('crows', 'tuple'), d.get('prm') if cls == 'SDevice' else '-', py.get('rcform'), type(e).__name__, str(e)[:160])}]
     rr = d.get('_py', {}).get('reread')
     ctx = (' [device built with %s=%s, .constraints read once, then %s set to %s through its setter]' % (rr[0], rr[1], rr[0], d['prm'][rr[0]])) if rr else ''
+    cbr = d.get('_py', {}).get('cb_reread')
+    if cbr:
+      ctx += ' [device built with cbounds=%s, .constraints read once, then cbounds set to %s through its setter]' % (
+        'None' if cbr == 'none' else '(%s, %s)' % (cbr[0], cbr[1]), d['cbs'] or 'None')
     owner = constraints_owner(dev)
     relabel = (lambda kind: kind) if owner in OWNERS else (lambda kind: 'constraints-overridden')
     octx = '' if owner in OWNERS else ' [%s.constraints resolves to an override in class %s, which the T1 translation does not read]' % (cls, owner)
